@@ -288,7 +288,7 @@ pub fn make_shape(rng: &mut Rng, shape: Shape, allowed: &[HashKind]) -> ShapeOut
             // colliding keys: multiples of 64 collide in a 64-bin table under Identity and split
             // on later resizes; Const/SameBin collide for ever
             let hash = if allowed.is_empty() {
-                *rng.pick(&[HashKind::Const, HashKind::SameBin, HashKind::Identity, HashKind::Mod(2)])
+                *rng.pick(&[HashKind::Const, HashKind::SameBin, HashKind::Identity, HashKind::Mod(2), HashKind::Mixed(3), HashKind::Mixed(4)])
             } else {
                 *rng.pick(allowed)
             };
@@ -515,7 +515,11 @@ pub fn gen_program(rng: &mut Rng, gc: &GenCfg) -> Program {
                 }
                 12 => Op::Clear,
                 13 => Op::Reserve(*rng.pick(&[1u32, 4, 12, 13, 30, 50])),
-                14 => Op::Len,
+                14 => match rng.below(4) {
+                    0 => Op::EqSelf,
+                    1 => Op::Rel(rng.below(8) as u8),
+                    _ => Op::Len,
+                },
                 15 => Op::IterAll(*rng.pick(&[IterKind::Iter, IterKind::Keys, IterKind::Values, IterKind::Clone])),
                 16 => {
                     if !iter_open {
